@@ -89,6 +89,10 @@ func (s *PrintCtx) setentry(e *Entry) {
 
 	s.lvl = e.level
 	s.kvps = e.attrs
+
+	// a pooled context must not carry the colors of the previous record
+	// into a level which has no colors registered.
+	s.clr, s.bg = clrBasic, clrNone
 }
 
 func (s *PrintCtx) set(e *Entry, lvl Level, timestamp time.Time, stackFrame uintptr, msg string, kvps Attrs) {
